@@ -2,7 +2,7 @@
  * Bounded unit: block sizes m_bufSize 1..3 and 0..2 user attributes (one call per concrete size), arbitrary counts.
  */
 #include "types.h"
-/*@unit {'name':'c02_new_slot', 'props':['C02'], 'entry':'h_newslot', 'kind':'bounded', 'unwind':5,
+/*@unit {'name':'c02_new_slot', 'props':['C02','C03'], 'entry':'h_newslot', 'kind':'bounded', 'unwind':5,
   'bound':'slot blocks of 1..3 slots with 0..2 user attributes each; glyph / character counts arbitrary',
   'claims':'Segment::newSlot: with an empty free list it refuses to allocate once the segment has more than 64 slots per input character (MAX_SEG_GROWTH_FACTOR); otherwise a fresh block is initialised with every slot inside the slot array, every user-attribute pointer inside the attribute array with room for numUser entries, and the rest of the block chained on the free list; with a non-empty free list it pops the head and detaches it'}@*/
 /*@include slots.tc@*/
